@@ -47,3 +47,6 @@ pub assume_specification<T, E, F: FnOnce(E) -> T>[::std::result::Result::<T, E>:
 pub assume_specification<T, E, F: FnOnce(T) -> bool>[::std::result::Result::<T, E>::is_ok_and](a: ::std::result::Result<T, E>, f: F) -> (r: bool)
     requires a is Ok ==> call_requires(f, (a->Ok_0,)),
     ensures match a { Ok(t) => call_ensures(f, (t,), r), Err(_) => !r };
+// ASCII-case-insensitive comparison of byte strings: equal strings compare equal, strings of different length do not
+pub assume_specification[<[u8]>::eq_ignore_ascii_case](a: &[u8], b: &[u8]) -> (r: bool)
+    ensures a@ == b@ ==> r, r ==> a@.len() == b@.len();
